@@ -180,7 +180,9 @@ def _get_process_streams_in_each_subzone(
         if not zone_path:
             continue
         streams_by_full_path[zone_path].append(stream)
-        streams_by_relative_path[zone_path].append(stream)
+        if not zone_path.startswith(master_zone.name + "/"):
+            # only labels that are not already rooted at the master zone are matched as root-relative paths
+            streams_by_relative_path[zone_path].append(stream)
 
     def _iter_zones(parent_zone: Zone):
         """Depth-first traversal yielding each zone once."""
